@@ -227,8 +227,12 @@ def check_case(case):
       # one more rule on top of whatever the object holds (no reset)
       if cur_recipe[s['q']] is None:
         continue
-      apply_update(qt, s['rule'])
-      cur_recipe[s['q']] = dict(cur_recipe[s['q']], then=list(cur_recipe[s['q']].get('then', [])) + [s['rule']])
+      if apply_update(qt, s['rule']):
+        cur_recipe[s['q']] = dict(cur_recipe[s['q']], then=list(cur_recipe[s['q']].get('then', [])) + [s['rule']])
+      else:
+        # a refused update must leave no trace: the fresh Quantizer it is compared
+        # with never sees it
+        labels.append('update_refused')
       labels.append('update_after_use' if quantized[s['q']] or shared['calib'] is not None else 'update')
     elif s['do'] == 'calibrate':
       if cur_recipe[s['q']] is None or not qt.get_quantization_recipe():
